@@ -1,135 +1,498 @@
 //! C03: key-switching family.  See ../ks_common.rs for the record layout.
 //!
-//! codes
-//!   3001 glwe_keyswitch            3002 glwe_keyswitch_assign         (L1: output limbs reproduced by the model; L2 oracle)
-//!   3090 key rows: a freshly encrypted GLWE switching key / automorphism key, row by row (key-row lemma on real keys)
-//!
-//! ps[18] = input value class, ps[19] = secret kinds (in*4+out)
+//! codes (x_i = ps[18+i]; x0 = Galois element / op parameter, x1 = secret kinds (in*4+out), x2 = input value class)
+//!   3001 glwe_keyswitch   3002 glwe_keyswitch_assign        L1: output limbs reproduced by the model (+ L2 oracle)
+//!   3003 gglwe_keyswitch  3004 gglwe_keyswitch_assign       x3 = rank_in of the GGLWE, x4 = its dnum, x5 = dnum of the result
+//!   3007 lwe_keyswitch                                      x3 = n_lwe_in, x4 = n_lwe_out
+//!   3010 glwe_automorphism 3011 _assign 3012 _add 3013 _add_assign 3014 _sub 3015 _sub_negate 3016 _sub_assign 3017 _sub_negate_assign
+//!   3020 glwe_automorphism_key_automorphism 3021 _assign    x0 = p_a, x3 = p_b, x4 = dnum_a, x5 = k_noise_a, x6 = dnum_res
+//!   3030 glwe_trace 3031 glwe_trace_assign                  x0 = skip
+//!   3032 glwe_pack                                          x0 = log_gap_out, x3 = bit mask of the occupied slots
+//!   3040 lwe_from_glwe (x0 = coefficient index, x3 = n_lwe)  3041 glwe_from_lwe (x3 = n_lwe)  3042 lwe_sample_extract (x3 = n_lwe)
+//!   3050 shape independence: one encrypted message switched through a grid of key shapes (x3 = k_pt, x4 = G, then 6 numbers per shape)
+//!   3090 key rows of a freshly encrypted GLWE switching key (x0 = 0) / automorphism key (x0 = p)
+//! vs: 0 secret in, 1 secret out, 2 input ciphertext(s), 3 key dump (L1 records only) ; observations: outputs, then [flags]
 #[path = "../ks_common.rs"]
 #[macro_use]
 mod ks_common;
 use ks_common::*;
 use poulpy_verif_harness::with_be;
 
-fn run(r: &Rec) -> (Vec<Vec<i128>>, Vec<Vec<i128>>) {
+fn run(r: &Rec) -> Ran {
     let h = Hdr::parse(&r.ps);
-    let x = |i: usize| r.ps[HDR + i];
+    let x = |i: usize| r.ps.get(HDR + i).copied().unwrap_or(0);
     with_be!(h.be, BE, {
         ks_helpers!(BE);
         let m: M = M::new(h.n as u64);
         let n = h.n;
+        let (kin, kout, class) = ((x(1) / 4) as u64, (x(1) % 4) as u64, x(2) as u64);
+        let mut g = Rng::new(h.seed ^ 0xA5A5);
         match r.code {
             3001 | 3002 => {
-                // vs: 0 sk_in, 1 sk_out, 2 input ciphertext, 3 key dump  (all regenerated from the seed: vs is what the model reads)
-                let a = glwe_from(n, h.in_b, h.in_size, h.in_rank, &r.vs[2]);
-                let sk_in = sk_new(n, h.key_rin, h.seed ^ 1, (x(1) / 4) as u64);
-                let sk_out = sk_new(n, h.key_rout, h.seed ^ 2, (x(1) % 4) as u64);
+                let sk_in = sk_new(n, h.key_rin, h.seed ^ 1, kin);
+                let sk_out = sk_new(n, h.key_rout, h.seed ^ 2, kout);
+                let (k, kp) = ksk_new(&m, &h, &sk_in, &sk_out, h.seed);
+                let av = input_or(r, 2, || digits(&mut g, n * (h.in_rank + 1) * h.in_size, h.in_b, class));
+                let a = glwe_from(n, h.in_b, h.in_size, h.in_rank, &av);
+                let vs = vec![sk_coeffs(&m, &sk_in), sk_coeffs(&m, &sk_out), av.clone(), mat_dump(|r_, c| k.at(r_, c), h.dnum, h.key_rin)];
+                let code = r.code;
+                (vs, try_op(|| {
+                    let (o, same) = twice(|fill| {
+                        if code == 3001 {
+                            let lo = h.glwe_out();
+                            let mut res = GLWE::alloc_from_infos(&lo);
+                            res.data_mut().data.iter_mut().for_each(|b| *b = 0x5a);
+                            let mut sc = scratch(m.glwe_keyswitch_tmp_bytes(&lo, &a, &kp), fill);
+                            m.glwe_keyswitch(&mut res, &a, &kp, sc.borrow());
+                            vec![glwe_dump(&res)]
+                        } else {
+                            let mut res = a.clone();
+                            let mut sc = scratch(m.glwe_keyswitch_tmp_bytes(&res, &res, &kp), fill);
+                            m.glwe_keyswitch_assign(&mut res, &kp, sc.borrow());
+                            vec![glwe_dump(&res)]
+                        }
+                    });
+                    (vec![vec![same]], o)
+                }))
+            }
+            3003 | 3004 => {
+                let (a_rin, a_dnum, r_dnum) = (us(x(3)), us(x(4)), us(x(5)));
+                let sk_in = sk_new(n, h.key_rin, h.seed ^ 1, kin);
+                let sk_out = sk_new(n, h.key_rout, h.seed ^ 2, kout);
                 let (_k, kp) = ksk_new(&m, &h, &sk_in, &sk_out, h.seed);
-                let mut outs = Vec::new();
-                for fill in [0x4330_0000_0000_0001i64, -0x0123_4567_89ab_cdefi64] {
-                    if r.code == 3001 {
+                let la = GGLWELayout { n: Degree(n as u32), base2k: Base2K(h.in_b as u32), k: TorusPrecision((h.in_size * h.in_b) as u32),
+                                       rank_in: Rank(a_rin as u32), rank_out: Rank(h.key_rin as u32), dnum: Dnum(a_dnum as u32), dsize: Dsize(1) };
+                let lr = GGLWELayout { n: Degree(n as u32), base2k: Base2K(h.out_b as u32), k: TorusPrecision((h.out_size * h.out_b) as u32),
+                                       rank_in: Rank(a_rin as u32), rank_out: Rank(h.key_rout as u32), dnum: Dnum(r_dnum as u32), dsize: Dsize(1) };
+                let cell = n * (h.in_rank + 1) * h.in_size;
+                let av = input_or(r, 2, || digits(&mut g, cell * a_dnum * a_rin, h.in_b, class));
+                let mut a = GGLWE::alloc_from_infos(&la);
+                for row in 0..a_dnum { for ci in 0..a_rin { let q = row * a_rin + ci; glwe_fill(&mut a.at_mut(row, ci), &av[q * cell..(q + 1) * cell]); } }
+                let vs = vec![sk_coeffs(&m, &sk_in), sk_coeffs(&m, &sk_out), av.clone(), vec![]];
+                let code = r.code;
+                (vs, try_op(|| {
+                    let (mut o, same) = twice(|fill| {
+                        if code == 3003 {
+                            let mut res = GGLWE::alloc_from_infos(&lr);
+                            let mut sc = scratch(m.gglwe_keyswitch_tmp_bytes(&lr, &la, &kp), fill);
+                            m.gglwe_keyswitch(&mut res, &a, &kp, sc.borrow());
+                            vec![mat_dump(|r_, c| res.at(r_, c), r_dnum, a_rin)]
+                        } else {
+                            let mut res = a.clone();
+                            let mut sc = scratch(m.gglwe_keyswitch_tmp_bytes(&la, &la, &kp), fill);
+                            m.gglwe_keyswitch_assign(&mut res, &kp, sc.borrow());
+                            vec![mat_dump(|r_, c| res.at(r_, c), a_dnum, a_rin)]
+                        }
+                    });
+                    o.push(vec![same]);
+                    (o, vec![vec![1]])
+                }))
+            }
+            3007 => {
+                let (nl_in, nl_out) = (us(x(3)), us(x(4)));
+                let (ski, sko) = (lwe_sk_new(nl_in, h.seed ^ 1), lwe_sk_new(nl_out, h.seed ^ 2));
+                let lk = LWESwitchingKeyLayout { n: Degree(n as u32), base2k: Base2K(h.key_b as u32), k: TorusPrecision((h.key_size * h.key_b) as u32), dnum: Dnum(h.dnum as u32) };
+                let mut k = LWESwitchingKey::alloc_from_infos(&lk);
+                let mut sc0 = setup(m.lwe_switching_key_encrypt_sk_tmp_bytes(&lk).max(m.gglwe_prepare_tmp_bytes(&lk)));
+                m.lwe_switching_key_encrypt_sk(&mut k, &ski, &sko, &h.noise(), &mut src(h.seed ^ 0x51), &mut src(h.seed ^ 0x52), sc0.borrow());
+                let mut kp = m.lwe_switching_key_prepared_alloc_from_infos(&k);
+                m.lwe_switching_key_prepare(&mut kp, &k, sc0.borrow());
+                let av = input_or(r, 2, || digits(&mut g, (nl_in + 1) * h.in_size, h.in_b, class));
+                let a = lwe_from(nl_in, h.in_b, h.in_size, &av);
+                let vs = vec![lwe_sk_coeffs(&ski), lwe_sk_coeffs(&sko), av.clone(), vec![]];
+                (vs, try_op(|| {
+                    let (mut o, same) = twice(|fill| {
+                        let mut res = LWE::alloc(Degree(nl_out as u32), Base2K(h.out_b as u32), TorusPrecision((h.out_size * h.out_b) as u32));
+                        let mut sc = scratch(2 * m.lwe_keyswitch_tmp_bytes(&res, &a, &kp) + (1 << 16), fill);
+                        m.lwe_keyswitch(&mut res, &a, &kp, sc.borrow());
+                        vec![lwe_dump(&res)]
+                    });
+                    o.push(vec![same]);
+                    (o, vec![vec![1]])
+                }))
+            }
+            3010..=3017 => {
+                let p = x(0) as i64;
+                let sk = sk_new(n, h.key_rin, h.seed ^ 1, kin);
+                let (_k, kp) = atk_new(&m, &h, &sk, p, h.seed);
+                let av = input_or(r, 2, || digits(&mut g, n * (h.in_rank + 1) * h.in_size, h.in_b, class));
+                let a = glwe_from(n, h.in_b, h.in_size, h.in_rank, &av);
+                let s = sk_coeffs(&m, &sk);
+                let vs = vec![s.clone(), s, av.clone(), vec![]];
+                let code = r.code;
+                (vs, try_op(|| {
+                    let (mut o, same) = twice(|fill| {
+                        let lo = h.glwe_out();
+                        let inplace = matches!(code, 3011 | 3013 | 3016 | 3017);
+                        let mut res = if inplace { a.clone() } else { let mut t = GLWE::alloc_from_infos(&lo); t.data_mut().data.iter_mut().for_each(|b| *b = 0x5a); t };
+                        let need = if inplace { m.glwe_automorphism_tmp_bytes(&res, &res, &kp) } else { m.glwe_automorphism_tmp_bytes(&lo, &a, &kp) };
+                        let mut sc = scratch(need, fill);
+                        match code {
+                            3010 => m.glwe_automorphism(&mut res, &a, &kp, sc.borrow()),
+                            3011 => m.glwe_automorphism_assign(&mut res, &kp, sc.borrow()),
+                            3012 => m.glwe_automorphism_add(&mut res, &a, &kp, sc.borrow()),
+                            3013 => m.glwe_automorphism_add_assign(&mut res, &kp, sc.borrow()),
+                            3014 => m.glwe_automorphism_sub(&mut res, &a, &kp, sc.borrow()),
+                            3015 => m.glwe_automorphism_sub_negate(&mut res, &a, &kp, sc.borrow()),
+                            3016 => m.glwe_automorphism_sub_assign(&mut res, &kp, sc.borrow()),
+                            _ => m.glwe_automorphism_sub_negate_assign(&mut res, &kp, sc.borrow()),
+                        }
+                        vec![glwe_dump(&res)]
+                    });
+                    o.push(vec![same]);
+                    (o, vec![vec![1]])
+                }))
+            }
+            3020 | 3021 => {
+                let (pa, pb, dnum_a, k_a, dnum_r) = (x(0) as i64, x(3) as i64, us(x(4)), us(x(5)), us(x(6)));
+                let sk = sk_new(n, h.key_rin, h.seed ^ 1, kin);
+                let (_kb, kbp) = atk_new(&m, &h, &sk, pb, h.seed);
+                // the key that is transformed: automorphism key for p_a in the "input" layout
+                let la = GGLWELayout { n: Degree(n as u32), base2k: Base2K(h.in_b as u32), k: TorusPrecision((h.in_size * h.in_b) as u32),
+                                       rank_in: Rank(h.in_rank as u32), rank_out: Rank(h.in_rank as u32), dnum: Dnum(dnum_a as u32), dsize: Dsize(1) };
+                let lr = GGLWELayout { n: Degree(n as u32), base2k: Base2K(h.out_b as u32), k: TorusPrecision((h.out_size * h.out_b) as u32),
+                                       rank_in: Rank(h.in_rank as u32), rank_out: Rank(h.in_rank as u32), dnum: Dnum(dnum_r as u32), dsize: Dsize(1) };
+                let mut ka = GLWEAutomorphismKey::alloc_from_infos(&la);
+                let noise_a = NoiseInfos::new(k_a, DEFAULT_SIGMA_XE, 6.0 * DEFAULT_SIGMA_XE).unwrap();
+                let mut sc0 = setup(m.glwe_automorphism_key_encrypt_sk_tmp_bytes(&la));
+                m.glwe_automorphism_key_encrypt_sk(&mut ka, pa, &sk, &noise_a, &mut src(h.seed ^ 0x71), &mut src(h.seed ^ 0x72), sc0.borrow());
+                let s = sk_coeffs(&m, &sk);
+                let vs = vec![s.clone(), s, mat_dump(|r_, c| ka.at(r_, c), dnum_a, h.in_rank), vec![]];
+                let code = r.code;
+                (vs, try_op(|| {
+                    let (mut o, same) = twice(|fill| {
+                        if code == 3020 {
+                            let mut res = GLWEAutomorphismKey::alloc_from_infos(&lr);
+                            let mut sc = scratch(m.glwe_automorphism_key_automorphism_tmp_bytes(&lr, &la, &kbp), fill);
+                            m.glwe_automorphism_key_automorphism(&mut res, &ka, &kbp, sc.borrow());
+                            vec![mat_dump(|r_, c| res.at(r_, c), dnum_r, h.in_rank), vec![res.p() as i128]]
+                        } else {
+                            let mut res = ka.clone();
+                            let mut sc = scratch(m.glwe_automorphism_key_automorphism_tmp_bytes(&la, &la, &kbp), fill);
+                            m.glwe_automorphism_key_automorphism_assign(&mut res, &kbp, sc.borrow());
+                            vec![mat_dump(|r_, c| res.at(r_, c), dnum_a, h.in_rank), vec![res.p() as i128]]
+                        }
+                    });
+                    o.push(vec![same]);
+                    (o, vec![vec![1]])
+                }))
+            }
+            3030 | 3031 => {
+                let skip = us(x(0));
+                let sk = sk_new(n, h.key_rin, h.seed ^ 1, kin);
+                let keys = atk_map(&m, &h, &sk, h.seed);
+                let av = input_or(r, 2, || digits(&mut g, n * (h.in_rank + 1) * h.in_size, h.in_b, class));
+                let a = glwe_from(n, h.in_b, h.in_size, h.in_rank, &av);
+                let s = sk_coeffs(&m, &sk);
+                let vs = vec![s.clone(), s, av.clone(), vec![]];
+                let code = r.code;
+                let lk = h.gglwe();
+                (vs, try_op(|| {
+                    let (mut o, same) = twice(|fill| {
+                        if code == 3030 {
+                            let lo = h.glwe_out();
+                            let mut res = GLWE::alloc_from_infos(&lo);
+                            let mut sc = scratch(2 * m.glwe_trace_tmp_bytes(&lo, &a, &lk) + (1 << 16), fill);
+                            m.glwe_trace(&mut res, skip, &a, &keys, sc.borrow());
+                            vec![glwe_dump(&res)]
+                        } else {
+                            let mut res = a.clone();
+                            let mut sc = scratch(2 * m.glwe_trace_tmp_bytes(&res, &res, &lk) + (1 << 16), fill);
+                            m.glwe_trace_assign(&mut res, skip, &keys, sc.borrow());
+                            vec![glwe_dump(&res)]
+                        }
+                    });
+                    o.push(vec![same]);
+                    (o, vec![vec![1]])
+                }))
+            }
+            3032 => {
+                let (log_gap, mask) = (us(x(0)), x(3) as u64);
+                let sk = sk_new(n, h.key_rin, h.seed ^ 1, kin);
+                let keys = atk_map(&m, &h, &sk, h.seed);
+                let slots: Vec<usize> = (0..n).filter(|i| (mask >> i) & 1 == 1).collect();
+                let cell = n * (h.in_rank + 1) * h.in_size;
+                let av = input_or(r, 2, || digits(&mut g, cell * slots.len(), h.in_b, class));
+                let s = sk_coeffs(&m, &sk);
+                let vs = vec![s.clone(), s, av.clone(), vec![]];
+                let lk = h.gglwe();
+                (vs, try_op(|| {
+                    let (mut o, same) = twice(|fill| {
+                        let mut cts: Vec<GLWE<Vec<u8>>> = (0..slots.len()).map(|i| glwe_from(n, h.in_b, h.in_size, h.in_rank, &av[i * cell..(i + 1) * cell])).collect();
+                        let mut map: HashMap<usize, &mut GLWE<Vec<u8>>> = HashMap::new();
+                        for (ct, i) in cts.iter_mut().zip(slots.iter()) { map.insert(*i, ct); }
                         let lo = h.glwe_out();
                         let mut res = GLWE::alloc_from_infos(&lo);
-                        res.data_mut().data.iter_mut().for_each(|b| *b = 0x5a);
-                        let mut sc = scratch(m.glwe_keyswitch_tmp_bytes(&lo, &a, &kp), fill);
+                        let mut sc = scratch(2 * m.glwe_pack_tmp_bytes(&lo, &lk) + (1 << 16), fill);
+                        m.glwe_pack(&mut res, map, log_gap, &keys, sc.borrow());
+                        vec![glwe_dump(&res)]
+                    });
+                    o.push(vec![same]);
+                    (o, vec![vec![1]])
+                }))
+            }
+            3040 => {
+                let (idx, nl) = (us(x(0)), us(x(3)));
+                let sk = sk_new(n, h.key_rin, h.seed ^ 1, kin);
+                let skl = lwe_sk_new(nl, h.seed ^ 2);
+                let lk = GLWEToLWEKeyLayout { n: Degree(n as u32), base2k: Base2K(h.key_b as u32), k: TorusPrecision((h.key_size * h.key_b) as u32),
+                                              rank_in: Rank(h.key_rin as u32), dnum: Dnum(h.dnum as u32) };
+                let mut k = GLWEToLWEKey::alloc_from_infos(&lk);
+                let mut sc0 = setup(m.glwe_to_lwe_key_encrypt_sk_tmp_bytes(&lk).max(m.gglwe_prepare_tmp_bytes(&lk)));
+                m.glwe_to_lwe_key_encrypt_sk(&mut k, &skl, &sk, &h.noise(), &mut src(h.seed ^ 0x51), &mut src(h.seed ^ 0x52), sc0.borrow());
+                let mut kp = m.glwe_to_lwe_key_prepared_alloc_from_infos(&k);
+                m.glwe_to_lwe_key_prepare(&mut kp, &k, sc0.borrow());
+                let av = input_or(r, 2, || digits(&mut g, n * (h.in_rank + 1) * h.in_size, h.in_b, class));
+                let a = glwe_from(n, h.in_b, h.in_size, h.in_rank, &av);
+                let vs = vec![sk_coeffs(&m, &sk), lwe_sk_coeffs(&skl), av.clone(), vec![]];
+                (vs, try_op(|| {
+                    let (mut o, same) = twice(|fill| {
+                        let mut res = LWE::alloc(Degree(nl as u32), Base2K(h.out_b as u32), TorusPrecision((h.out_size * h.out_b) as u32));
+                        let mut sc = scratch(2 * m.lwe_from_glwe_tmp_bytes(&res, &a, &kp) + (1 << 16), fill);
+                        m.lwe_from_glwe(&mut res, &a, idx, &kp, sc.borrow());
+                        vec![lwe_dump(&res)]
+                    });
+                    o.push(vec![same]);
+                    (o, vec![vec![1]])
+                }))
+            }
+            3041 => {
+                let nl = us(x(3));
+                let sk = sk_new(n, h.key_rout, h.seed ^ 1, kout);
+                let skp = sk_prep(&m, &sk);
+                let skl = lwe_sk_new(nl, h.seed ^ 2);
+                let lk = LWEToGLWEKeyLayout { n: Degree(n as u32), base2k: Base2K(h.key_b as u32), k: TorusPrecision((h.key_size * h.key_b) as u32),
+                                              rank_out: Rank(h.key_rout as u32), dnum: Dnum(h.dnum as u32) };
+                let mut k = LWEToGLWEKey::alloc_from_infos(&lk);
+                let mut sc0 = setup(m.lwe_to_glwe_key_encrypt_sk_tmp_bytes(&lk).max(m.gglwe_prepare_tmp_bytes(&lk)));
+                m.lwe_to_glwe_key_encrypt_sk(&mut k, &skl, &skp, &h.noise(), &mut src(h.seed ^ 0x51), &mut src(h.seed ^ 0x52), sc0.borrow());
+                let mut kp = m.lwe_to_glwe_key_prepared_alloc_from_infos(&k);
+                m.lwe_to_glwe_key_prepare(&mut kp, &k, sc0.borrow());
+                let av = input_or(r, 2, || digits(&mut g, (nl + 1) * h.in_size, h.in_b, class));
+                let a = lwe_from(nl, h.in_b, h.in_size, &av);
+                let vs = vec![lwe_sk_coeffs(&skl), sk_coeffs(&m, &sk), av.clone(), vec![]];
+                (vs, try_op(|| {
+                    let (mut o, same) = twice(|fill| {
+                        let lo = h.glwe_out();
+                        let mut res = GLWE::alloc_from_infos(&lo);
+                        let mut sc = scratch(2 * m.glwe_from_lwe_tmp_bytes(&lo, &a, &kp) + (1 << 16), fill);
+                        m.glwe_from_lwe(&mut res, &a, &kp, sc.borrow());
+                        vec![glwe_dump(&res)]
+                    });
+                    o.push(vec![same]);
+                    (o, vec![vec![1]])
+                }))
+            }
+            3042 => {
+                let nl = us(x(3));
+                let s: Vec<i128> = (0..nl).map(|_| g.range(-1, 1) as i128).collect();
+                let av = input_or(r, 2, || digits(&mut g, n * 2 * h.in_size, h.in_b, class));
+                let a = glwe_from(n, h.in_b, h.in_size, 1, &av);
+                let vs = vec![s, vec![], av.clone(), vec![]];
+                (vs, try_op(|| {
+                    let mut res = LWE::alloc(Degree(nl as u32), Base2K(h.out_b as u32), TorusPrecision((h.out_size * h.out_b) as u32));
+                    m.lwe_sample_extract(&mut res, &a);
+                    (vec![lwe_dump(&res), vec![1]], vec![vec![1]])
+                }))
+            }
+            3050 => {
+                // one message, one pair of secrets, a grid of gadget shapes
+                let (k_pt, gn) = (us(x(3)), us(x(4)));
+                let sk_in = sk_new(n, h.key_rin, h.seed ^ 1, kin);
+                let sk_out = sk_new(n, h.key_rout, h.seed ^ 2, kout);
+                let msg: Vec<i128> = input_or(r, 2, || (0..n).map(|_| g.range(-(1 << (k_pt - 1)), (1 << (k_pt - 1)) - 1) as i128).collect());
+                // encode at the top k_pt bits of the first limbs and encrypt with noise at the input precision
+                let li = h.glwe_in();
+                let mut pt = GLWEPlaintext::alloc_from_infos(&li);
+                pt.encode_vec_i64(&v64(&msg), TorusPrecision(k_pt as u32));
+                let mut a = GLWE::alloc_from_infos(&li);
+                let skp = sk_prep(&m, &sk_in);
+                let noise = NoiseInfos::new(h.in_size * h.in_b, DEFAULT_SIGMA_XE, 6.0 * DEFAULT_SIGMA_XE).unwrap();
+                let mut sc0 = setup(m.glwe_encrypt_sk_tmp_bytes(&li));
+                m.glwe_encrypt_sk(&mut a, &pt, &skp, &noise, &mut src(h.seed ^ 0x62), &mut src(h.seed ^ 0x63), sc0.borrow());
+                let vs = vec![sk_coeffs(&m, &sk_in), sk_coeffs(&m, &sk_out), msg.clone(), glwe_dump(&a)];
+                (vs, try_op(|| {
+                    let mut o = Vec::new();
+                    for gi in 0..gn {
+                        let q = |j: usize| us(x(5 + 6 * gi + j));
+                        let mut hg = h;
+                        hg.key_b = q(0); hg.dsize = q(1); hg.dnum = q(2); hg.key_size = q(3); hg.out_b = q(4); hg.out_size = q(5);
+                        hg.key_k = hg.key_size * hg.key_b;
+                        let (_k, kp) = ksk_new(&m, &hg, &sk_in, &sk_out, h.seed.wrapping_add(gi as u64));
+                        let lo = hg.glwe_out();
+                        let mut res = GLWE::alloc_from_infos(&lo);
+                        let mut sc = scratch(m.glwe_keyswitch_tmp_bytes(&lo, &a, &kp), 0x4330_0000_0000_0001i64);
                         m.glwe_keyswitch(&mut res, &a, &kp, sc.borrow());
-                        outs.push(glwe_dump(&res));
-                    } else {
-                        let mut res = a.clone();
-                        let mut sc = scratch(m.glwe_keyswitch_tmp_bytes(&res, &res, &kp), fill);
-                        m.glwe_keyswitch_assign(&mut res, &kp, sc.borrow());
-                        outs.push(glwe_dump(&res));
+                        o.push(glwe_dump(&res));
                     }
-                }
-                let same = (outs[0] == outs[1]) as i128;
-                (vec![vec![same]], vec![outs[0].clone()])
+                    (o, vec![vec![1]])
+                }))
             }
             3090 => {
-                // key rows: vs: 0 sk_in, 1 sk_out ; obs: key dump
                 let p = x(0) as i64;
-                let sk_in = sk_new(n, h.key_rin, h.seed ^ 1, (x(1) / 4) as u64);
-                let dump = if p == 0 {
-                    let sk_out = sk_new(n, h.key_rout, h.seed ^ 2, (x(1) % 4) as u64);
-                    let (k, _kp) = ksk_new(&m, &h, &sk_in, &sk_out, h.seed);
-                    mat_dump(|r_, c| k.at(r_, c), h.dnum, h.key_rin)
+                let sk_in = sk_new(n, h.key_rin, h.seed ^ 1, kin);
+                if p == 0 {
+                    let sk_out = sk_new(n, h.key_rout, h.seed ^ 2, kout);
+                    let vs = vec![sk_coeffs(&m, &sk_in), sk_coeffs(&m, &sk_out)];
+                    (vs, try_op(|| { let (k, _kp) = ksk_new(&m, &h, &sk_in, &sk_out, h.seed); (vec![mat_dump(|r_, c| k.at(r_, c), h.dnum, h.key_rin)], vec![vec![1]]) }))
                 } else {
-                    let (k, _kp) = atk_new(&m, &h, &sk_in, p, h.seed);
-                    mat_dump(|r_, c| k.at(r_, c), h.dnum, h.key_rin)
-                };
-                (vec![dump], vec![vec![1]])
+                    let s = sk_coeffs(&m, &sk_in);
+                    let vs = vec![s.clone(), s];
+                    (vs, try_op(|| { let (k, _kp) = atk_new(&m, &h, &sk_in, p, h.seed); (vec![mat_dump(|r_, c| k.at(r_, c), h.dnum, h.key_rin)], vec![vec![1]]) }))
+                }
             }
             _ => panic!("c03: unknown op {}", r.code),
         }
     })
 }
 
-pub fn exec(r: &Rec) -> (Vec<Vec<i128>>, Out) {
-    let r2 = r.clone();
-    match std::panic::catch_unwind(move || run(&r2)) {
-        Ok((obs, out)) => (obs, Ok(out)),
-        Err(p) => (vec![], Err(panic_class(p))),
-    }
-}
+pub fn exec(r: &Rec) -> Ran { run(r) }
 
-/// fill in the vectors that the model needs and that derive from the seed: secrets and key dump
-fn complete(code: i64, mut h: Hdr, extra: Vec<i128>, input: Option<Vec<i128>>) -> Rec {
-    h.nobs = 0;
-    let ps = h.ps(&extra);
-    with_be!(h.be, BE, {
-        ks_helpers!(BE);
-        let m: M = M::new(h.n as u64);
-        let kinds = extra[1];
-        let p = extra[0] as i64;
-        let sk_in = sk_new(h.n, h.key_rin, h.seed ^ 1, (kinds / 4) as u64);
-        let s_in = sk_coeffs(&m, &sk_in);
-        let (s_out, dump) = if code == 3090 && p != 0 {
-            (s_in.clone(), vec![])
-        } else {
-            let sk_out = sk_new(h.n, h.key_rout, h.seed ^ 2, (kinds % 4) as u64);
-            let s_out = sk_coeffs(&m, &sk_out);
-            let dump = if code == 3090 { vec![] } else { let (k, _kp) = ksk_new(&m, &h, &sk_in, &sk_out, h.seed); mat_dump(|r_, c| k.at(r_, c), h.dnum, h.key_rin) };
-            (s_out, dump)
-        };
-        let mut vs = vec![s_in, s_out];
-        if let Some(a) = input { vs.push(a); vs.push(dump); }
-        Rec::new(code, ps, vs)
-    })
+/// a gadget shape for an input of `in_size` limbs of radix `in_b`: (key_b, dsize, dnum, key_size, key_k)
+fn shape(rng: &mut Rng, fft: bool, in_b: usize, in_size: usize, max_dsize: usize) -> (usize, usize, usize, usize, usize) {
+    let key_b = match rng.below(3) { 0 => in_b.min(if fft { 17 } else { 40 }), _ => (if fft { rng.range(7, 17) } else { rng.range(7, 40) }) as usize };
+    let dsize = (rng.range(1, 3) as usize + (rng.below(8) == 0) as usize).min(max_dsize);
+    let a_conv = (in_size * in_b).div_ceil(key_b);
+    let need = a_conv.div_ceil(dsize);
+    let dnum = match rng.below(4) { 0 => need.saturating_sub(1).max(1), 1 => need + 1, _ => need.max(1) };
+    let key_size = (dnum * dsize + rng.range(0, 2) as usize).max(dsize + 1);
+    let key_k = (key_size * key_b - rng.below(key_b as u64) as usize).max(dnum * dsize * key_b).min(key_size * key_b);
+    (key_b, dsize, dnum, key_size, key_k)
 }
 
 pub fn generate(tier: &str, seed: u64) -> Vec<Rec> {
     let mut rng = Rng::new(seed);
     let mut out = Vec::new();
-    let reps = if tier == "thorough" { 1500 } else { 260 };
-    for it in 0..reps {
+    let thorough = tier == "thorough";
+    let scale = if thorough { 6 } else { 1 };
+    let mk = |code: i64, h: &Hdr, extra: Vec<i128>| Rec::new(code, h.ps(&extra), vec![]);
+    let pick_b = |rng: &mut Rng, fft: bool, key_b: usize| -> usize {
+        match rng.below(3) { 0 => key_b, 1 => (key_b as i64 + rng.range(-3, 3)).max(4) as usize, _ => rng.range(5, if fft { 19 } else { 45 }) as usize } };
+    let base = |rng: &mut Rng, it: u64, max_dsize: usize, same_rank: bool| -> Hdr {
         let be = [1i128, 3, 2, 4][(it % 4) as usize];
         let n = [8usize, 8, 16, 32][rng.below(4) as usize];
         let fft = be <= 2;
-        // radices: three-way mismatch in most cases; FFT64 stays inside its exact magnitude domain (2*b + log2(n*rows) + 2 <= 50)
-        let key_b = if fft { rng.range(7, 17) } else { rng.range(7, 40) } as usize;
-        let pick_b = |rng: &mut Rng| -> usize { match rng.below(3) { 0 => key_b, 1 => (key_b as i64 + rng.range(-3, 3)).max(4) as usize, _ => rng.range(5, if fft { 19 } else { 45 }) as usize } };
-        let (in_b, out_b) = (pick_b(&mut rng), pick_b(&mut rng));
-        let dsize = rng.range(1, 3) as usize + (rng.below(8) == 0) as usize;
+        let in_b = rng.range(6, if fft { 17 } else { 40 }) as usize;
         let in_size = rng.range(1, 6) as usize;
-        // a_size after conversion to the key radix; dnum smaller / equal / larger than needed
-        let a_conv = (in_size * in_b).div_ceil(key_b);
-        let need = a_conv.div_ceil(dsize);
-        let dnum = match rng.below(4) { 0 => need.saturating_sub(1).max(1), 1 => need + 1, _ => need.max(1) };
-        let key_size = (dnum * dsize + rng.range(0, 2) as usize).max(dsize + 1);
-        let key_k = key_size * key_b - rng.below(key_b as u64) as usize;
-        let key_k = key_k.max(dnum * dsize * key_b).min(key_size * key_b);
+        let (key_b, dsize, dnum, key_size, key_k) = shape(rng, fft, in_b, in_size, max_dsize);
+        let out_b = pick_b(rng, fft, key_b);
         let out_size = rng.range(1, 6) as usize;
-        let (rin, rout) = (rng.range(1, 3) as usize, rng.range(1, 3) as usize);
+        let rin = rng.range(1, 3) as usize;
+        let rout = if same_rank { rin } else { rng.range(1, 3) as usize };
+        Hdr { be, n, nobs: 0, in_b, in_size, in_rank: rin, out_b, out_size, out_rank: rout,
+              key_b, key_size, key_rin: rin, key_rout: rout, dsize, dnum, key_k, bound: BOUND_XE, seed: rng.next() >> 8 }
+    };
+    let kinds = |rng: &mut Rng| (rng.below(3) * 4 + rng.below(3)) as i128;
+
+    // --- glwe_keyswitch(_assign): L1 + L2, and key rows
+    for it in 0..260 * scale {
+        let mut h = base(&mut rng, it, 4, false);
         let code = if it % 3 == 2 { 3002 } else { 3001 };
-        let (rout, out_b, out_size) = if code == 3002 { (rin, in_b, in_size) } else { (rout, out_b, out_size) };
-        let h = Hdr { be, n, nobs: 0, in_b, in_size, in_rank: rin, out_b, out_size, out_rank: rout,
-                      key_b, key_size, key_rin: rin, key_rout: rout, dsize, dnum, key_k, bound: BOUND_XE, seed: rng.next() >> 8 };
-        let class = rng.below(6);
-        let kinds = (rng.below(3) * 4 + rng.below(3)) as i128;
-        let a = digits(&mut rng, n * (rin + 1) * in_size, in_b, class);
-        out.push(complete(code, h, vec![0, kinds, class as i128], Some(a)));
-        if it % 4 == 0 {
-            out.push(complete(3090, h, vec![0, kinds], None));
+        if code == 3002 { h.out_rank = h.in_rank; h.key_rout = h.in_rank; h.out_b = h.in_b; h.out_size = h.in_size; }
+        let (k, c) = (kinds(&mut rng), rng.below(6) as i128);
+        out.push(mk(code, &h, vec![0, k, c]));
+        if it % 4 == 0 { out.push(mk(3090, &h, vec![0, k])); }
+    }
+    // --- automorphism variants: every Galois element for N <= 32 (all 8 variants cycle over the elements)
+    for n in [8usize, 16, 32] {
+        for (gi, p) in (1..2 * n as i64).step_by(2).enumerate() {
+            for rep in 0..(if n == 8 { 2 * scale } else { scale }) {
+                let it = (gi as u64) + rep;
+                let mut h = base(&mut rng, it, 4, true);
+                h.n = n;
+                let code = 3010 + ((gi as i64 + rep as i64 * 3) % 8);
+                if matches!(code, 3011 | 3013 | 3016 | 3017) { h.out_b = h.in_b; h.out_size = h.in_size; }
+                let pp = if rng.below(2) == 0 { p } else { p - 2 * n as i64 };
+                let (k, c) = (kinds(&mut rng), rng.below(6) as i128);
+                out.push(mk(code, &h, vec![pp as i128, k, c]));
+                if gi % 4 == 0 && rep == 0 { out.push(mk(3090, &h, vec![pp as i128, k])); }
+            }
         }
+    }
+    // --- gglwe key-switch
+    for it in 0..24 * scale {
+        let mut h = base(&mut rng, it, 3, false);
+        h.in_size = h.in_size.max(2); h.out_b = h.in_b; h.out_size = h.out_size.max(2);
+        let code = if it % 3 == 2 { 3004 } else { 3003 };
+        if code == 3004 { h.out_rank = h.in_rank; h.key_rout = h.in_rank; h.out_size = h.in_size; }
+        let a_dnum = rng.range(1, h.in_size as i64) as usize;
+        let r_dnum = rng.range(1, a_dnum.min(h.out_size) as i64) as usize;
+        let (k, c) = (kinds(&mut rng), rng.below(6) as i128);
+        out.push(mk(code, &h, vec![0, k, c, rng.range(1, 2) as i128, a_dnum as i128, r_dnum as i128]));
+    }
+    // --- automorphism of automorphism keys
+    for it in 0..16 * scale {
+        let mut h = base(&mut rng, it, 3, true);
+        h.in_size = h.in_size.max(2); h.out_b = h.in_b; h.out_size = h.out_size.max(2);
+        let code = if it % 2 == 1 { 3021 } else { 3020 };
+        if code == 3021 { h.out_size = h.in_size; }
+        let dnum_a = rng.range(1, h.in_size as i64) as usize;
+        let dnum_r = rng.range(1, dnum_a.min(h.out_size) as i64) as usize;
+        let pa = 2 * rng.below(h.n as u64) as i128 + 1; let pb = 2 * rng.below(h.n as u64) as i128 + 1;
+        let k_a = h.in_size * h.in_b;
+        out.push(mk(code, &h, vec![pa, kinds(&mut rng), 0, pb, dnum_a as i128, k_a as i128, dnum_r as i128]));
+    }
+    // --- trace from every start level, out of place and in place
+    for n in [8usize, 16, 32] {
+        let logn = n.trailing_zeros() as usize;
+        for skip in 0..=logn { for rep in 0..(2 * scale) {
+            let mut h = base(&mut rng, (skip as u64) * 2 + rep, 4, true);
+            h.n = n;
+            let code = if rep % 2 == 0 { 3030 } else { 3031 };
+            if code == 3031 { h.out_b = h.in_b; h.out_size = h.in_size; }
+            out.push(mk(code, &h, vec![skip as i128, kinds(&mut rng), rng.below(6) as i128]));
+        } }
+    }
+    // --- packing: slot subsets for N <= 16 (all subsets of a small window + random subsets), every log_gap_out
+    for n in [8usize, 16] {
+        let logn = n.trailing_zeros() as usize;
+        for it in 0..(14 * scale) {
+            let mut h = base(&mut rng, it, 2, true);
+            h.n = n; h.out_b = h.in_b;
+            let log_gap = (it as usize) % (logn + 1);
+            let mask: u64 = match it % 4 { 0 => (1u64 << n) - 1, 1 => 1, _ => (rng.next() & ((1u64 << n) - 1)) | 1 };
+            out.push(mk(3032, &h, vec![log_gap as i128, kinds(&mut rng), rng.below(6) as i128, mask as i128]));
+        }
+    }
+    // --- LWE key-switch and conversions, every extraction index for N = 8, 16
+    for it in 0..20 * scale {
+        let mut h = base(&mut rng, it, 1, true);
+        h.in_rank = 1; h.out_rank = 1; h.key_rin = 1; h.key_rout = 1;
+        let (nl_in, nl_out) = (rng.range(1, h.n as i64) as i128, rng.range(1, h.n as i64) as i128);
+        out.push(mk(3007, &h, vec![0, 0, rng.below(6) as i128, nl_in, nl_out]));
+    }
+    for n in [8usize, 16] { for idx in 0..n {
+        let mut h = base(&mut rng, idx as u64, 1, false);
+        h.n = n; h.out_rank = 1; h.key_rout = 1;
+        out.push(mk(3040, &h, vec![idx as i128, kinds(&mut rng), rng.below(6) as i128, rng.range(1, n as i64) as i128]));
+    } }
+    for it in 0..16 * scale {
+        let mut h = base(&mut rng, it, 1, false);
+        h.in_rank = 1; h.key_rin = 1;
+        out.push(mk(3041, &h, vec![0, kinds(&mut rng), rng.below(6) as i128, rng.range(1, h.n as i64) as i128]));
+        let mut h2 = base(&mut rng, it, 1, false);
+        h2.out_b = h2.in_b;
+        out.push(mk(3042, &h2, vec![0, 0, rng.below(6) as i128, rng.range(1, h2.n as i64) as i128]));
+    }
+    // --- shape independence
+    for it in 0..10 * scale {
+        let mut h = base(&mut rng, it, 3, false);
+        let fft = h.be <= 2;
+        h.in_size = h.in_size.max(2);
+        let k_pt = 5usize;
+        let gn = 6usize;
+        let mut extra = vec![0, kinds(&mut rng), 0, k_pt as i128, gn as i128];
+        for _ in 0..gn {
+            let (key_b, dsize, _dnum, _ks, _kk) = shape(&mut rng, fft, h.in_b, h.in_size, 3);
+            // enough rows for the whole input and two guard limbs so that the message survives: the plaintext must not depend on the shape
+            let a_conv = (h.in_size * h.in_b).div_ceil(key_b);
+            let dnum = a_conv.div_ceil(dsize) + rng.below(2) as usize;
+            let key_size = (dnum * dsize + 1).max(dsize + 1);
+            let out_b = pick_b(&mut rng, fft, key_b);
+            let out_size = (h.in_size * h.in_b).div_ceil(out_b) + rng.below(2) as usize;
+            extra.extend([key_b as i128, dsize as i128, dnum as i128, key_size as i128, out_b as i128, out_size as i128]);
+        }
+        out.push(mk(3050, &h, extra));
     }
     out
 }
